@@ -18,79 +18,69 @@ theorem C14_tables_readonly : Generated.globalWritesUrl = [] ∧ Generated.globa
 /-- nothing the syntactic analysis cannot see: no unsafe, reflect, sync, goroutines or channels in the two packages -/
 theorem C14_no_exotic_features : Generated.exoticFeatures = [] := by decide
 
-/-- all stores through a receiver or a parameter, in the whole url package: the functions below and no others. In
-    particular no getter, not `Href`, not `Clone`, not `Parse/ParseRef/(*Url).Parse`, and in `BasicParser` only through
-    `url` (the freshly created result, or the receiver of a setter) — never through `baseUrl` or its private clone `base`. -/
-theorem C14_stores_through_parameters : Generated.fieldWritesUrl = [
-  ("parser.handleError", "u.validationErrors"),
-  ("parser.handleErrorWithDescription", "u.validationErrors"),
-  ("parser.handleWrappedError", "u.validationErrors"),
-  ("inputString.nextCodePoint", "i.pointer"),
-  ("inputString.nextCodePoint", "i.eof"),
-  ("inputString.getCurrentAsByte", "i.eof"),
-  ("inputString.rewindLast", "i.eof"),
-  ("inputString.rewindLast", "i.pointer"),
-  ("inputString.reset", "i.pointer"),
-  ("inputString.reset", "i.eof"),
-  ("inputString.rewind", "i.pointer"),
-  ("inputString.rewind", "i.eof"),
-  ("parser.BasicParser", "url.inputUrl"),
-  ("parser.BasicParser", "url.parser"),
-  ("parser.BasicParser", "url.scheme"),
-  ("parser.BasicParser", "url.path"),
-  ("parser.BasicParser", "url.query"),
-  ("parser.BasicParser", "url.fragment"),
-  ("parser.BasicParser", "url.username"),
-  ("parser.BasicParser", "url.password"),
-  ("parser.BasicParser", "url.host"),
-  ("parser.BasicParser", "url.port"),
-  ("parser.BasicParser", "url.decodedPort"),
-  ("parser.BasicParser", "url.path.p[]"),
-  ("parser.BasicParser", "*url.query"),
-  ("Url.cleanDefaultPort", "u.port"),
-  ("Url.cleanDefaultPort", "u.decodedPort"),
-  ("path.setOpaque", "p.p"),
-  ("path.setOpaque", "p.opaque"),
-  ("path.addSegment", "p.p"),
-  ("path.addSegment", "p.opaque"),
-  ("path.init", "p.p"),
-  ("path.init", "p.opaque"),
-  ("path.shortenPath", "p.p"),
-  ("path.stripTrailingSpacesIfOpaque", "p.p[]"),
-  ("SearchParams.init", "s.params"),
-  ("SearchParams.update", "s.url.query"),
-  ("SearchParams.Append", "s.params"),
-  ("SearchParams.Delete", "s.params"),
-  ("SearchParams.Set", "s.params[]"),
-  ("SearchParams.Set", "s.params"),
-  ("Url.SetUsername", "u.username"),
-  ("Url.SetPassword", "u.password"),
-  ("Url.SetPort", "u.port"),
-  ("Url.SetPort", "u.decodedPort"),
-  ("Url.SetSearch", "u.query"),
-  ("Url.SetSearch", "u.searchParams.params"),
-  ("Url.SetSearchParams", "u.searchParams"),
-  ("Url.SetHash", "u.fragment"),
-  ("Url.newUrlSearchParams", "u.searchParams")] ∧
-    Generated.fieldWritesCanon = [] := by decide
+/-! ### the typed mod/ref summary (regenerated: `harness/modref.go`, go/types; flow-insensitive, interprocedural)
 
-/-- the functions that store through a parameter are the cursor (private to one call), the error recorder and `BasicParser`
-    on the url under construction, the path object of that url, and the documented mutators — none of them is a read-only
-    API entry point other than through a freshly allocated result -/
-def mutatorFunctions : List String := ["parser.handleError", "parser.handleErrorWithDescription", "parser.handleWrappedError",
-  "inputString.nextCodePoint", "inputString.getCurrentAsByte", "inputString.rewindLast", "inputString.reset", "inputString.rewind",
-  "parser.BasicParser", "Url.cleanDefaultPort", "path.setOpaque", "path.addSegment", "path.init", "path.shortenPath",
-  "path.stripTrailingSpacesIfOpaque", "SearchParams.init", "SearchParams.update", "SearchParams.Append", "SearchParams.Delete",
-  "SearchParams.Set", "Url.SetUsername", "Url.SetPassword", "Url.SetPort", "Url.SetSearch", "Url.SetSearchParams", "Url.SetHash",
-  "Url.newUrlSearchParams"]
+Entry format: `(function, exported, writes, returns, aliases, external calls on shared objects)`; regions are `recv`,
+`param<i>`, `global`. The theorems quantify over the EXPORTED functions by name (renaming or moving an unexported helper,
+extracting code into a new helper, or reordering declarations changes no statement below); unexported functions only occur
+under "for every function". -/
 
-theorem C14_readapi_modref : ∀ w ∈ Generated.fieldWritesUrl, w.1 ∈ mutatorFunctions ∧
-    (w.1 = "parser.BasicParser" → w.2.toList.take 4 = "url.".toList ∨ w.2 = "*url.query") := by decide
+abbrev MR := String × Bool × List String × List String × List String × List (String × String)
+def MR.name (e : MR) := e.1
+def MR.api (e : MR) := e.2.1
+def MR.writes (e : MR) := e.2.2.1
+def MR.returns (e : MR) := e.2.2.2.1
+def MR.aliases (e : MR) := e.2.2.2.2.1
+def MR.extern (e : MR) := e.2.2.2.2.2
 
-/-- `BasicParser` uses its `baseUrl` parameter only for the nil test and the defensive `Clone()`; `Clone` does not call the
-    lazily initialising accessor `SearchParams()` on its receiver (the repaired data race) -/
-theorem C14_base_only_cloned : Generated.baseUrlUses = ["baseUrl != nil", "baseUrl.Clone()"] ∧
-    (∀ c ∈ Generated.callees, c.1 = "Url.Clone" → "u.SearchParams" ∉ c.2 ∧ "u.newUrlSearchParams" ∉ c.2) := by decide
+def allMR : List MR := Generated.modrefUrl ++ Generated.modrefCanon
+
+/-- the documented mutators of the API and the only regions each may store to: the setters, the list mutators and
+    `Iterate` (which writes the list back) through their receiver; `Url.SearchParams()` creates the list lazily (which is
+    why a URL shared between goroutines must not be asked for its SearchParams concurrently, and why `Clone` must not call
+    it: F10); `SetSearchParams` additionally re-targets its argument; `Canonicalize` rewrites its argument; `BasicParser`
+    stores to its third parameter only (the url under construction: nil for a parse, the receiver for a setter) -/
+def mutators : List (String × List String) := [
+  ("Url.SetProtocol", ["recv"]), ("Url.SetUsername", ["recv"]), ("Url.SetPassword", ["recv"]), ("Url.SetHost", ["recv"]),
+  ("Url.SetHostname", ["recv"]), ("Url.SetPort", ["recv"]), ("Url.SetPathname", ["recv"]), ("Url.SetSearch", ["recv"]),
+  ("Url.SetHash", ["recv"]), ("Url.SetSearchParams", ["recv", "param0"]), ("Url.SearchParams", ["recv"]),
+  ("SearchParams.Append", ["recv"]), ("SearchParams.Delete", ["recv"]), ("SearchParams.Set", ["recv"]),
+  ("SearchParams.Sort", ["recv"]), ("SearchParams.SortAbsolute", ["recv"]), ("SearchParams.Iterate", ["recv"]),
+  ("profile.Canonicalize", ["param0"]), ("parser.BasicParser", ["param2"])]
+
+/-- no exported function other than the documented mutators stores to any object that existed before the call — in
+    particular no getter, not `Href`/`String`, not `Clone`, not `Parse`/`ParseRef`/`(*Url).Parse` (the base!), no
+    `PercentEncodeSet` operation, no profile's `Parse`; option constructors only build closures -/
+theorem C14_readonly_api : ∀ e ∈ allMR, e.api = true → (mutators.lookup e.name).isNone → e.writes = [] := by decide +kernel
+
+/-- the documented mutators store only where the table says (never to a base, never to package-level state) -/
+theorem C14_mutators_scope : ∀ e ∈ allMR, e.api = true → ∀ m ∈ mutators, m.1 = e.name → ∀ r ∈ e.writes, r ∈ m.2 := by decide +kernel
+
+/-- no function at all, exported or not, stores to package-level state (`init` builds the tables through external calls,
+    listed below) -/
+theorem C14_no_function_writes_globals : ∀ e ∈ allMR, "global" ∉ e.writes := by decide +kernel
+
+/-- methods of types defined outside the two packages that are called on shared objects are readers (bit tests, clones,
+    table lookups, the IDNA profile), with two documented exceptions: `init` fills the package tables, and
+    `SearchParams.QueryEscape` appends to the `strings.Builder` its caller passes in -/
+def externalReaders : List String := ["bitset.BitSet.Test", "bitset.BitSet.Clone", "charmap.Charmap.EncodeRune", "charmap.Charmap.DecodeByte",
+  "charmap.Charmap.String", "idna.Profile.ToASCII"]
+
+theorem C14_external_calls_read_only : ∀ e ∈ allMR, ∀ x ∈ e.extern,
+    x.1 ∈ externalReaders ∨ e.name = "init" ∨
+    (e.name = "SearchParams.QueryEscape" ∧ x.2 = "param1" ∧ x.1 ∈ ["strings.Builder.WriteRune", "strings.Builder.WriteString"]) := by decide +kernel
+
+/-- the entry points take a base: it is never stored to, nothing reachable from it is stored into the result, and the
+    result is a new object (`BasicParser`: new, or its third parameter) -/
+theorem C14_base_untouched : ∀ e ∈ allMR,
+    (e.name = "parser.BasicParser" → "param1" ∉ e.writes ∧ e.aliases = [] ∧ e.returns = ["fresh", "param2"]) ∧
+    (e.name ∈ ["Url.Parse", "parser.Parse", "parser.ParseRef", "Parse", "ParseRef", "profile.Parse", "profile.ParseRef"] → e.writes = [] ∧ e.returns = ["fresh"]) := by
+  decide +kernel
+
+/-- non-vacuity: the functions named above exist in the regenerated summary -/
+theorem C14_summary_covers : ∀ n ∈ ["parser.BasicParser", "Url.Parse", "parser.Parse", "parser.ParseRef", "Parse", "ParseRef", "profile.Parse", "profile.ParseRef",
+    "Url.Href", "Url.Clone", "Url.Hostname", "SearchParams.Get", "SearchParams.String", "PercentEncodeSet.Set", "profile.Canonicalize", "Url.SetHash"],
+    n ∈ allMR.map MR.name := by decide +kernel
 
 /-! ### the generic step from "no shared writes" to "all interleavings" -/
 
